@@ -47,6 +47,7 @@ pub fn mix_for(focus: &str) -> Mix {
             m.publish = 1;
         }
         "C02" => {
+            m.cas_rewrite = 8;
             m.cas_cycle = 30;
             m.cset = 10;
             m.cget = 5;
@@ -57,6 +58,7 @@ pub fn mix_for(focus: &str) -> Mix {
             m.get = 2;
         }
         "C03" => {
+            m.cas_rewrite = 4;
             m.set = 20;
             m.cset = 5;
             m.delete = 8;
@@ -76,8 +78,8 @@ pub fn mix_for(focus: &str) -> Mix {
             m.pdelete = 8;
             m.ls = 12;
             m.pls = 8;
-            m.subscribe_ls = 8;
-            m.unsubscribe_ls = 3;
+            m.subscribe_ls = 10;
+            m.unsubscribe_ls = 6;
         }
         "C06" => {
             m.lock = 15;
@@ -271,7 +273,7 @@ pub fn gen_plan(rng: &mut Rng, focus: &str, thorough: bool) -> WirePlan {
                         || v.get("lock").is_some()
                         || v.get("acquireLock").is_some()
                         || v.get("releaseLock").is_some(),
-                    Op::CasCycle { .. } => true,
+                    Op::CasCycle { .. } | Op::CasRewrite { .. } => true,
                     _ => false,
                 };
                 if v1 && !rng.chance(1, 15) {
@@ -384,7 +386,7 @@ fn keys_of_plan(plan: &WirePlan) -> BTreeSet<String> {
         for op in &c.ops {
             match op {
                 Op::Req(v) => walk(v, &mut out),
-                Op::CasCycle { key, .. } => {
+                Op::CasCycle { key, .. } | Op::CasRewrite { key, .. } => {
                     out.insert(key.clone());
                 }
                 _ => {}
